@@ -838,8 +838,12 @@ type InvScenario struct {
 	CallbackSleep  []int64 `json:"callback_sleep,omitempty"` // per callback: simulated time spent inside
 	// FirstSlowNs: the very first callback invocation of the run takes that much longer (a cold start): calls
 	// that arrive meanwhile queue on the Invalidator for a long time, the later invalidations are quick.
-	FirstSlowNs int64       `json:"first_slow_ns,omitempty"`
-	Clients     [][]InvCall `json:"clients"`
+	FirstSlowNs int64 `json:"first_slow_ns,omitempty"`
+	// EmptySlice: with no callbacks the Callbacks field is an empty, non-nil slice (what an owner is left with
+	// after unregistering its last callback, or after make([]..., 0, n)) instead of nil. Nothing is registered
+	// either way.
+	EmptySlice bool        `json:"empty_slice,omitempty"`
+	Clients    [][]InvCall `json:"clients"`
 }
 
 func genC17(r *rand.Rand, _ int, _ string) *Scenario {
@@ -859,6 +863,10 @@ func genC17(r *rand.Rand, _ int, _ string) *Scenario {
 
 	for i := 0; i < iv.Callbacks; i++ {
 		iv.CallbackSleep = append(iv.CallbackSleep, pick(r, int64(0), 0, 1, si/2, si, 2*si))
+	}
+
+	if iv.Callbacks == 0 {
+		iv.EmptySlice = chance(r, 0.5)
 	}
 
 	if chance(r, 0.3) && iv.Callbacks > 0 {
@@ -916,6 +924,10 @@ func runInvalidator(e *env) {
 
 		firstDone bool
 	)
+
+	if sc.Callbacks == 0 && sc.EmptySlice {
+		i.Callbacks = make([]func(context.Context), 0, 2)
+	}
 
 	for c := 0; c < sc.Callbacks; c++ {
 		c := c
